@@ -1,4 +1,6 @@
+#![allow(dead_code)]
 mod util;
+mod model;
 mod props;
 
 fn main() {
@@ -6,6 +8,7 @@ fn main() {
     let args: Vec<String> = std::env::args().collect();
     let cmd = args.get(1).map(|s| s.as_str()).unwrap_or("");
     let code = match cmd {
+        "C04" => props::c04::run(),
         "C18" => props::c18::run(),
         "replay" => replay(args.get(2).map(|s| s.as_str()).unwrap_or("")),
         _ => { eprintln!("usage: ascamc <C01..C20> [--tier quick|thorough] | replay <file>"); 2 }
@@ -19,6 +22,7 @@ fn replay(path: &str) -> i32 {
     let pid = v["property"].as_str().unwrap_or("");
     println!("replaying {} :: {}", pid, v["key"].as_str().unwrap_or(""));
     let res = match pid {
+        "C04" => props::c04::replay(&v["case"]),
         "C18" => props::c18::replay(&v["case"]),
         _ => Err(format!("no replay for {pid}")),
     };
